@@ -227,3 +227,66 @@ Example C04_end_to_end_dup_and_disorder :
   e2e_gathered "**[.=b]" doc_rev = [(Some 0%N, PStr "b"); (Some 0%N, PStr "a")] /\
   del_all_located doc_rev (e2e_gathered "**[.=b]" doc_rev) = true.
 Proof. vm_compute. repeat split. Qed.
+
+(* ======================================================================== *)
+(* END TO END WITH NOTHING LEFT TO ASSUME ABOUT THE READ SIDE (round proofs2;
+   proofs: Proofs/EvalLocSet.v, Proofs/EvalDeleteLoc.v).  For every document in
+   which every container object occurs once ([wf_doc]) and keys / set members are
+   scalars, pairwise unequal ([c02_doc_ok]: true of every loaded document), every
+   path of the C01 fragment WITHOUT slice segments ([no_slice]: the array form of
+   a slice gathers a virtual list, witness below) - negative indexes, anchors,
+   `**` followed by a filter, duplicates and disorder included -, every oracle:
+   every gathered coordinate is the root coordinate or locates a node, hence
+   deleting at the path either is refused with the document unchanged (the root
+   was matched) or removes exactly the gathered nodes. *)
+From YP Require Import SpecC01 SpecC02 EvalLocAll EvalDeleteLoc.
+
+Theorem C04_gathered_located :
+  forall lit re_search nstr vstr kw_handler creator segs d,
+    wf_doc d -> c02_doc_ok d = true -> c01_frag (PPath segs) = true -> no_slice segs = true ->
+    Forall (fun q => pc_parent q = None \/ del_located d (pc_pair q) = true)
+           (gathered lit re_search nstr vstr kw_handler creator (PPath segs) d).
+Proof. exact gathered_located. Qed.
+Print Assumptions C04_gathered_located.
+
+Theorem C04_delete_end_to_end_full :
+  forall lit re_search nstr vstr kw_handler creator segs d,
+    wf_doc d -> c02_doc_ok d = true -> c01_frag (PPath segs) = true -> no_slice segs = true ->
+    delete_nodes (map (fun c => CNode c false) (gathered lit re_search nstr vstr kw_handler creator (PPath segs) d)) d
+    = if has_root_coord (gathered lit re_search nstr vstr kw_handler creator (PPath segs) d)
+      then Failed d (YPE NoDocument)
+      else MDone (delete_spec d (map pc_pair (gathered lit re_search nstr vstr kw_handler creator (PPath segs) d))).
+Proof. exact delete_gathered_full. Qed.
+Print Assumptions C04_delete_end_to_end_full.
+
+Definition e2e_guards (text : string) (d : node) : bool :=
+  match prepare 20 text with
+  | Ok (PPath segs) => wf_docb d && c02_doc_ok d && c01_frag (PPath segs) && no_slice segs
+  | _ => false
+  end.
+Definition e2e_delete (text : string) (d : node) : option final :=
+  match prepare 20 text with
+  | Ok p => Some (delete_nodes (map (fun c => CNode c false) (gathered e2e_lit e2e_re (fun _ => "") (fun _ => "") e2e_kw e2e_cr p d)) d)
+  | _ => None
+  end.
+
+(* non-vacuity on doc1 = {a: [1, [], 1, x], b: 5}: a negative index, a wildcard, `**` + filter (gathers a node
+   twice), a search; a descendant search that matches the ROOT (refused, document unchanged) *)
+Example C04_end_to_end_full_nonvacuous :
+  e2e_guards "a[-1]" doc1 = true /\
+  e2e_delete "a[-1]" doc1 = Some (MDone (NMap (ct 0) [ (sk 1 "a", NSeq (ct 2) [iv 3 1; NSeq (ct 4) []; iv 3 1]); (sk 6 "b", iv 7 5) ])) /\
+  e2e_guards "a.*" doc1 = true /\
+  e2e_delete "a.*" doc1 = Some (MDone (NMap (ct 0) [ (sk 1 "a", NSeq (ct 2) []); (sk 6 "b", iv 7 5) ])) /\
+  e2e_guards "**[.=x]" doc1 = true /\
+  e2e_delete "**[.=x]" doc1 = Some (MDone (NMap (ct 0) [ (sk 1 "a", NSeq (ct 2) [iv 3 1; NSeq (ct 4) []; iv 3 1]); (sk 6 "b", iv 7 5) ])) /\
+  e2e_guards "**[.^a]" doc_dup = true /\ e2e_delete "**[.^a]" doc_dup = Some (MDone (NMap (ct 0) [])) /\
+  e2e_guards "[a.3=x]" doc1 = true /\ e2e_gathered "[a.3=x]" doc1 = [(None, PNone)] /\
+  e2e_delete "[a.3=x]" doc1 = Some (Failed doc1 (YPE NoDocument)).
+Proof. vm_compute. repeat split. Qed.
+
+(* why slices are outside: the array form gathers ONE virtual list whose parentref is the slice start; a start
+   past the end names no child *)
+Example C04_end_to_end_slice_unlocated :
+  e2e_guards "a[5:9]" doc1 = false /\
+  e2e_gathered "a[5:9]" doc1 = [(Some 2%N, PInt 5)] /\ del_all_located doc1 (e2e_gathered "a[5:9]" doc1) = false.
+Proof. vm_compute. repeat split. Qed.
